@@ -4,7 +4,7 @@
 # and that the demo passes without it; then stores it as /verif/seeded/<seed-id>/.
 set -u
 SRC=$(realpath "$1"); ID="$2"; PROP="$3"; FEAT="${4:-}"
-WT=/tmp/mut/confirm
+WT=${CONFIRM_WT:-/tmp/mut/confirm}
 if [ ! -d $WT ]; then git -C /repo worktree add --detach $WT HEAD >/dev/null 2>&1; cp /repo/Cargo.lock $WT/; fi
 cd $WT || exit 2
 git checkout -q --detach $(git -C /repo rev-parse HEAD) 2>/dev/null
